@@ -37,7 +37,7 @@ char g_tag[4][4];
 #endif
 // the statement(s) of grid point (MINIDX_, filt, sev): syntactic variant and second statement per log_variant.h; pieces: string a,
 // integer n (0..99), char c, string b, and 0..2 lazily evaluated callables
-int CAT(log_stmt_, SFX)(unsigned filt, unsigned sev, unsigned thr0, unsigned thr1, const char* a, int n, char c, const char* b);
+int CAT(log_stmt_, SFX)(unsigned filt, unsigned sev, unsigned thr0, unsigned thr1, unsigned thr0b, unsigned thr1b, const char* a, int n, char c, const char* b);
 }
 
 namespace
@@ -111,6 +111,7 @@ template <typename Rec> using F7 = f::not_filter<f::and_filter<f::severity_filte
 template <typename Rec> using F8 = f::not_filter<f::or_filter<f::severity_filter<Rec, 0>, f::severity_filter<Rec, 1>>>;
 template <typename Rec> using F9 = f::and_filter<f::or_filter<f::severity_filter<Rec, 0>, f::severity_filter<Rec, 1>>, f::not_filter<f::and_filter<f::severity_filter<Rec, 0>, f::severity_filter<Rec, 1>>>>;
 
+unsigned g_thr0b, g_thr1b;
 struct lazy_t
 {
     std::string operator()() const
@@ -197,6 +198,13 @@ void point(const char* a, int n, char c, const char* b)
         constexpr unsigned s2 = VAR_SEV2(MINIDX_, FI, SV);
         if constexpr (s2 < 6)
             stmt<L, 0, 0, 0, s2>("2", 0, '!', "");
+        if constexpr (VAR_REPEAT(MINIDX_, FI, SV))
+        {
+            // the runtime thresholds change between two statements of one severity
+            sf0::set_severity(static_cast<nitro::log::severity_level>(g_thr0b));
+            sf1::set_severity(static_cast<nitro::log::severity_level>(g_thr1b));
+            stmt<L, 0, 0, 1, SV>("3", 0, '#', "");
+        }
     }
 }
 template <template <typename> class F, unsigned FI>
@@ -214,8 +222,10 @@ void run(unsigned sev, const char* a, int n, char c, const char* b)
 }
 } // namespace
 
-int CAT(log_stmt_, SFX)(unsigned filt, unsigned sev, unsigned thr0, unsigned thr1, const char* a, int n, char c, const char* b)
+int CAT(log_stmt_, SFX)(unsigned filt, unsigned sev, unsigned thr0, unsigned thr1, unsigned thr0b, unsigned thr1b, const char* a, int n, char c, const char* b)
 {
+    g_thr0b = thr0b;
+    g_thr1b = thr1b;
     sf0::set_severity(static_cast<nitro::log::severity_level>(thr0));
     sf1::set_severity(static_cast<nitro::log::severity_level>(thr1));
     switch (filt)
